@@ -116,6 +116,42 @@ pub mod roxmltree {
                 !r ==> forall|i: int| 0 <= i < ch_seq(*old(self)).len() ==> p.ensures((#[trigger] ch_seq(*old(self))[i],), false),
         { unimplemented!() }
     }
+    // ---- ancestors chain (roxmltree::Node::ancestors + std skip / take_while / collect), stated through the closure's own postcondition
+    pub uninterp spec fn anc<'a, 'b>(n: Node<'a, 'b>) -> Seq<Node<'a, 'b>>;
+    // TRUSTED: ancestors() yields the node itself, then its parent, and so on up to the root
+    pub broadcast axiom fn anc_chain(n: Node)
+        ensures #[trigger] anc(n).len() >= 1, anc(n)[0] == n,
+            forall|i: int| 0 <= i < anc(n).len() - 1 ==> parent_of(#[trigger] anc(n)[i]) == Some(anc(n)[i + 1]),
+            parent_of(anc(n)[anc(n).len() - 1]) is None;
+    #[verifier::external_body]
+    pub struct Ancestors<'a, 'input: 'a> { _p: core::marker::PhantomData<(&'a (), &'input ())> }
+    pub uninterp spec fn an_seq<'a, 'b>(c: Ancestors<'a, 'b>) -> Seq<Node<'a, 'b>>;
+    #[verifier::external_body]
+    #[verifier::reject_recursive_types(P)]
+    pub struct AncTakeWhile<'a, 'input: 'a, P> { _p: core::marker::PhantomData<(&'a (), &'input (), P)> }
+    pub uninterp spec fn tw_seq<'a, 'b, P>(c: AncTakeWhile<'a, 'b, P>) -> Seq<Node<'a, 'b>>;
+    pub uninterp spec fn tw_pred<'a, 'b, P>(c: AncTakeWhile<'a, 'b, P>) -> P;
+    impl<'a, 'input: 'a> Node<'a, 'input> {
+        #[verifier::external_body]
+        pub fn ancestors(&self) -> (r: Ancestors<'a, 'input>) ensures an_seq(r) == anc(*self) { unimplemented!() }
+    }
+    impl<'a, 'input: 'a> Ancestors<'a, 'input> {
+        #[verifier::external_body]
+        pub fn skip(self, k: usize) -> (r: Ancestors<'a, 'input>) ensures an_seq(r) == an_seq(self).skip(k as int) { unimplemented!() }
+        #[verifier::external_body]
+        pub fn take_while<P: FnMut(&Node<'a, 'input>) -> bool>(self, p: P) -> (r: AncTakeWhile<'a, 'input, P>)
+            ensures tw_seq(r) == an_seq(self), tw_pred(r) == p { unimplemented!() }
+    }
+    impl<'a, 'input: 'a, P: FnMut(&Node<'a, 'input>) -> bool> AncTakeWhile<'a, 'input, P> {
+        #[verifier::external_body]
+        pub fn collect(self) -> (r: Vec<Node<'a, 'input>>)
+            requires forall|x: &Node<'a, 'input>| tw_pred(self).requires((x,)),
+            ensures
+                r@.len() <= tw_seq(self).len(),
+                forall|i: int| 0 <= i < r@.len() ==> r@[i] == tw_seq(self)[i] && tw_pred(self).ensures((&#[trigger] tw_seq(self)[i],), true),
+                r@.len() < tw_seq(self).len() ==> tw_pred(self).ensures((&tw_seq(self)[r@.len() as int],), false),
+        { unimplemented!() }
+    }
     // presentation of `N.children().filter(Node::is_element)`: the element children of N, in document order
     #[verifier::external_body]
     pub fn element_children<'a, 'input: 'a>(n: Node<'a, 'input>) -> (r: Vec<Node<'a, 'input>>)
